@@ -24,7 +24,8 @@ def run(ctx):
     acc = c17.accessors(prog)
     sp = c17.split_fn(prog)
     cc = R["commit"]
-    b = prog.body(cc)
+    from . import roles as _roles
+    b = _roles.ib(prog, cc)          # commit with its private helpers spliced in
     store = R["store"]
 
     # ---------------- R1
@@ -67,7 +68,7 @@ def run(ctx):
     if not writes:
         r1.violation("file-write", "commit never writes the store to disk", common.fn_line(prog, cc))
     # no other writer of the map on commit
-    others = [(f, op, bb) for (f, op, bb, w) in phonetic.field_writes(prog, cc, mods) if f[:1] == (store,) and not op.endswith("::insert")]
+    others = [(f, op, bb) for (f, op, bb, w) in phonetic.field_writes(prog, cc, mods, body=b) if f[:1] == (store,) and not op.endswith("::insert")]
     if others:
         r1.violation("other-writers", "commit also writes the learned map through %s" % others[0][1], site_of(b, others[0][2]))
     else:
